@@ -312,8 +312,7 @@ pub fn sll_layer(base: &[u8], s: &LinuxSllSlice) -> Result<RLayer, String> {
         ("addr", u64::from_be_bytes(s.sender_address_full()) as u128),
         ("protocol", u16::from(s.protocol_type()) as u128),
     ];
-    let (o, n) = rel(base, s.sender_address())?;
-    l.ranges.push(("addr_valid", o, n));
+    rng(&mut l, "addr_valid", base, s.sender_address())?;
     l.pay_srcs = vec![Src::Slice];
     Ok(l)
 }
@@ -583,8 +582,7 @@ pub fn sll_header_layer(base: &[u8], s: &LinuxSllHeaderSlice) -> Result<RLayer, 
         ("addr", u64::from_be_bytes(s.sender_address_full()) as u128),
         ("protocol", u16::from(s.protocol_type()) as u128),
     ];
-    let (o, n) = rel(base, s.sender_address())?;
-    l.ranges.push(("addr_valid", o, n));
+    rng(&mut l, "addr_valid", base, s.sender_address())?;
     Ok(l)
 }
 pub fn vlan_header_layer(base: &[u8], v: &SingleVlanHeaderSlice) -> Result<RLayer, String> {
